@@ -147,4 +147,81 @@ theorem pair_absorb_eq_iff (P p T T' U : U64) (s s2 : Bool) :
       rw [trunc_sub, trunc_sub, h]
     rw [h1, h2]
 
+/-! ## whole collections -/
+
+/-- the value as a function of one time stamp `T` between `p` and `U`, everything else fixed -/
+theorem output_pair_eq_iff (P : U64) (A R : List Meas) (p T T' U : U64) (s s2 : Bool) :
+    output P (A ++ ⟨trunc32 (T - p), s⟩ :: ⟨trunc32 (U - T), s2⟩ :: R) =
+      output P (A ++ ⟨trunc32 (T' - p), s⟩ :: ⟨trunc32 (U - T'), s2⟩ :: R) ↔ trunc32 T = trunc32 T' := by
+  unfold output
+  rw [stir_bijective.1.eq_iff]
+  simp only [List.foldl_append, List.foldl_cons]
+  rw [(foldl_absorb_bijective R).1.eq_iff, pair_absorb_eq_iff]
+
+open Rngs.JitterRefine in
+/-- a collection that consumes exactly `pre ++ [c, T, e] ++ mid`, `T` being a time reading -/
+theorem genEntropy_mid (j : Jitter.Rng) (pre mid : List U64) (c T e : U64) (rest : List U64)
+    (v : U64) (j₁ : Jitter.Rng) (hp : pre.length % 3 = 1)
+    (h : Jitter.genEntropy j (pre ++ c :: T :: e :: (mid ++ rest)) = some ((v, j₁), rest)) :
+    ∃ t0 pre', pre = t0 :: pre' ∧ mid.length % 3 = 0 ∧
+      JitterProc.measurements (pre ++ c :: T :: e :: mid) =
+        measFrom ⟨t0, 0, 0⟩ pre' ++ (step (ecAfter ⟨t0, 0, 0⟩ pre') T).1 ::
+          measFrom (step (ecAfter ⟨t0, 0, 0⟩ pre') T).2 mid ∧
+      v = output j.data (JitterProc.measurements (pre ++ c :: T :: e :: mid)) := by
+  have h0 : Jitter.genEntropy j (pre ++ c :: T :: e :: mid) = some ((v, j₁), []) := by
+    apply genEntropy_exact j _ rest
+    rw [List.append_assoc]; exact h
+  obtain ⟨used, hu, hv, hl⟩ := genEntropy_used_some j _ v j₁ [] h0
+  have hx := usedMeas_exact _ _ _ hu (by rw [hl]; simp)
+  simp only [List.length_append, List.length_cons, List.length_nil] at hl
+  match pre, hp, hl, hx with
+  | [], hp, _, _ => simp at hp
+  | t0 :: pre', hp, hl, hx =>
+    have hp' : pre'.length % 3 = 0 := by simp only [List.length_cons] at hp; omega
+    refine ⟨t0, pre', rfl, by simp only [List.length_cons] at hl; omega, ?_, by rw [hv, hx]⟩
+    rw [show t0 :: pre' ++ c :: T :: e :: mid = t0 :: (pre' ++ c :: T :: e :: mid) from rfl,
+      measurements_cons, measFrom_append _ _ _ hp']
+    rfl
+
+theorem output_single_eq_iff (P : U64) (A R : List Meas) (d d' : U32) (s : Bool) :
+    output P (A ++ ⟨d, s⟩ :: R) = output P (A ++ ⟨d', s⟩ :: R) ↔ d = d' := by
+  unfold output
+  rw [stir_bijective.1.eq_iff, foldl_absorb_eq_iff]
+
+open Rngs.JitterRefine in
+/-- **one time reading.** -/
+theorem genEntropy_one_time_reading (j : Jitter.Rng) (pre mid : List U64) (c T T' e : U64)
+    (rest rest' : List U64) (v v' : U64) (j₁ j₁' : Jitter.Rng) (hp : pre.length % 3 = 1)
+    (h : Jitter.genEntropy j (pre ++ c :: T :: e :: (mid ++ rest)) = some ((v, j₁), rest))
+    (h' : Jitter.genEntropy j (pre ++ c :: T' :: e :: (mid ++ rest')) = some ((v', j₁'), rest'))
+    (hf : (JitterProc.measurements (pre ++ c :: T :: e :: mid)).map (·.stuck) =
+          (JitterProc.measurements (pre ++ c :: T' :: e :: mid)).map (·.stuck)) :
+    v = v' ↔ (T.setWidth 32 : U32) = T'.setWidth 32 := by
+  obtain ⟨t0, p, hpre, hm, hms, hv⟩ := genEntropy_mid j pre mid c T e rest v j₁ hp h
+  obtain ⟨t0', p', hpre', _, hms', hv'⟩ := genEntropy_mid j pre mid c T' e rest' v' j₁' hp h'
+  rw [hpre] at hpre'
+  cases hpre'
+  rw [hms, hms'] at hf
+  rw [hv, hv', hms, hms']
+  simp only [List.map_append, List.map_cons, List.append_cancel_left_eq, List.cons.injEq] at hf
+  obtain ⟨hs1, hf⟩ := hf
+  generalize ecAfter ⟨t0, 0, 0⟩ p = ecA at *
+  have e1 : ∀ x, (step ecA x).1 = ⟨trunc32 (x - ecA.prevTime), (step ecA x).1.stuck⟩ := fun _ => rfl
+  match mid, hm, hf with
+  | [], _, _ =>
+    simp only [measFrom]
+    rw [e1 T, e1 T', hs1, output_single_eq_iff]
+    exact delta_eq_iff _ _ _
+  | [_], hm, _ => simp at hm
+  | [_, _], hm, _ => simp at hm
+  | x :: U :: y :: mid', _, hf =>
+    simp only [measFrom, List.map_cons, List.cons.injEq] at hf ⊢
+    obtain ⟨hs2, hf⟩ := hf
+    have hR : measFrom (step (step ecA T).2 U).2 mid' = measFrom (step (step ecA T').2 U).2 mid' :=
+      meas_ext _ _ (measFrom_delta_congr _ _ _ rfl) hf
+    have e2 : ∀ x, (step (step ecA x).2 U).1 = ⟨trunc32 (U - x), (step (step ecA x).2 U).1.stuck⟩ :=
+      fun _ => rfl
+    rw [hR, e1 T, e1 T', e2 T, e2 T', hs1, hs2]
+    exact output_pair_eq_iff _ _ _ _ _ _ _ _ _
+
 end Rngs.JitterPair
